@@ -4,7 +4,7 @@ ENGINES = [
     dict(name="driver", path="vf/driver.py", serves_properties=[], kind_free_text="builds targets against /repo's current tree, runs shards on 16 cores, merges reports, known-findings logic, evidence writer"),
     dict(name="corpus+slots", path="vf/gen.py harness/engine.hpp harness/corpus_main.hpp model/peg_model.hpp", serves_properties=["C01", "C02", "C04", "C05", "C06", "C08", "C09"], kind_free_text="generate-compile-run grammar corpus and slot shapes, observer control with match() wrapper, reference PEG model, rapidcheck scripts"),
     dict(name="zoo", path="targets/c02_zoo.cpp", serves_properties=["C02", "C06"], kind_free_text="rule zoo: every hand-written match() rule in rewinding contexts on exhaustive short inputs, invariants from the observer control"),
-    dict(name="enumerators+rapidcheck", path="targets/", serves_properties=["C10", "C17"], kind_free_text="total enumeration of finite spaces plus rapidcheck generators, explicit independent oracles"),
+    dict(name="enumerators+rapidcheck", path="targets/", serves_properties=["C10", "C14", "C17"], kind_free_text="total enumeration of finite spaces plus rapidcheck generators, explicit independent oracles"),
 ]
 NOTES = "All checks: ./check <id> --tier quick|thorough [--replay FILE]; seeds from VERIF_SEED; budgets are case counts."
 NOT_YET = {}
@@ -58,6 +58,12 @@ CLAIMS = {
         text="Exploration, exhaustive where the space allows: all bytes for ~60 byte-class rules, istring<C> for all C, all 1-3 byte UTF-8 sequences and a boundary lattice (thorough: all) of 4-byte ones, all UTF-16 units with boundary (thorough: all surrogate-lead) second units, UTF-32 and uint32 boundary+strided (thorough: all 2^32), all uint16 values, structured+random uint64 values; consumed==N iff the unit is well formed and in the documented set. Candidates are followed by bytes that would complete a truncated unit, so reads beyond the logical end change the verdict.",
         design_ref="DESIGN.md section 2 C10",
         note="Trusted: the reference decoders in targets/c10_classes.cpp (typed from the standard), the finite family of template parameters."),
+    "C14": dict(
+        engine="enumerators+rapidcheck",
+        technique="differential testing against an independent RFC 8259 recogniser: exhaustive short strings over a JSON alphabet + rapidcheck grammar-derived documents, truncations and single-edit mutants; oracle cross-checked with Python json",
+        text="Exploration: 20 million exhaustive short strings (thorough ~600 million), tens of thousands of generated documents with all their truncations and single-edit mutants, deep nestings and the repository's data files, each judged by PEGTL's seq<json::text,eof> and by oracles/json_ref.hpp (ABNF + Unicode table 3-7); any exception is a violation. The oracle is re-validated against Python's json on 64000 sampled strings in every run; an oracle disagreement makes the run inconclusive, not failing.",
+        design_ref="DESIGN.md section 2 C14",
+        note="Trusted: oracles/json_ref.hpp and oracles/utf8_ref.hpp (plus Python json as second opinion), compilers."),
     "C17": dict(
         engine="enumerators+rapidcheck",
         technique="exhaustive enumeration + rapidcheck against an independent UTF-8/UTF-16 reference encoder",
